@@ -25,3 +25,5 @@ FUNCTIONS = FUNCTIONS + [M + 'match_nth', M + 'match_nth_tag_type']
 
 FUNCTIONS = FUNCTIONS + ['soupsieve.css_match.CSSMatch.match_range', 'soupsieve.css_match._DocumentNav.get_attribute_by_name']
 SHARDS = {'match_range': 8, 'parse_value': 8, 'match_selectors': 16, 'match_nth': 4}
+
+FUNCTIONS = FUNCTIONS + [q for q in ATTRS if q not in FUNCTIONS]
